@@ -328,6 +328,9 @@ func (e *env) famTwoBranches(depth, m, s, inv int, invKind kind, maxOrders int, 
 	for _, il := range interleavings(rev(mainSeq), sideSeq) {
 		orders = append(orders, il)
 	}
+	for _, il := range interleavings(rev(mainSeq), rev(sideSeq)) {
+		orders = append(orders, il)
+	}
 	if maxOrders > 0 && len(orders) > maxOrders {
 		var pick [][]int
 		for k := 0; k < maxOrders; k++ {
@@ -565,6 +568,25 @@ func (e *env) famDeploys(n int) {
 	}
 }
 
+// famDeep: a reorganisation deeper than the initial capacity of the reorganizer's block slices (initBlkCount = 20): main
+// chain of n blocks, side branch of n+2 blocks from genesis, delivered in order and children first (one long parked chain).
+func (e *env) famDeep(n int) {
+	var specs []spec
+	for i := 0; i < n; i++ {
+		specs = append(specs, spec{parent: i - 1, kind: kValid, ntx: 1})
+	}
+	for i := 0; i < n+2; i++ {
+		par := len(specs) - 1
+		if i == 0 {
+			par = -1
+		}
+		specs = append(specs, spec{parent: par, kind: kValid, ntx: 1})
+	}
+	blocks := e.build("deep", specs)
+	e.runScenario(&scenario{name: "deep/in-order", blocks: blocks, arrivals: seq(0, 2*n+2)})
+	e.runScenario(&scenario{name: "deep/children-first", blocks: blocks, arrivals: append(seq(0, n), rev(seq(n, n+2))...)})
+}
+
 // famSigRegression: regression case of the stale signature-verification result (recorded under C04, fixed in /repo by
 // 4499f0c6): a block whose transaction fails to execute, then a block with a transaction whose signature does not
 // verify: the second one must be refused (the model says so: it never executes), and a valid block after it accepted.
@@ -592,7 +614,8 @@ func Main(prop string) {
 	e.famPools()
 	if prop == "C05" || prop == "C07" {
 		e.famOwn()
-		e.famDeploys(run.Pick(12, 120))
+		e.famDeep(run.Pick(22, 30))
+		e.famDeploys(run.Pick(12, 60))
 		// the same on a chain whose hardforks come one after the other (receipts of the blocks below the V2 height are
 		// stored in the old encoding, the chain id version changes along every branch)
 		e2 := &env{run: run, prop: prop, rng: rng, reported: e.reported}
@@ -600,12 +623,12 @@ func Main(prop string) {
 		e2.w.newNode(100, 128).close()
 		e2.p = e2.w.newProducer(rng.Fork())
 		e2.famOwn()
-		e2.famDeploys(run.Pick(8, 80))
-		for i := 0; i < run.Pick(10, 100); i++ {
+		e2.famDeploys(run.Pick(8, 40))
+		for i := 0; i < run.Pick(10, 50); i++ {
 			s := 1 + rng.Intn(4)
 			e2.famTwoBranches(rng.Intn(3), 1+rng.Intn(3), s, rng.Intn(s+1)-1, invalidKinds[rng.Intn(len(invalidKinds))], 3, -1)
 		}
-		for i := 0; i < run.Pick(30, 300); i++ {
+		for i := 0; i < run.Pick(30, 200); i++ {
 			e2.famRandom(run.Pick(10, 16))
 		}
 		e.sessions += e2.sessions
@@ -642,7 +665,7 @@ func Main(prop string) {
 		// every arrival order" has been enumerated completely
 		run.SetExhaustive(true)
 		e.famSmall(run.Pick(5, 6), run.Pick(3, 15))
-		for i := 0; i < run.Pick(60, 600); i++ {
+		for i := 0; i < run.Pick(60, 400); i++ {
 			inv := -1
 			s := 1 + rng.Intn(4)
 			if rng.Chance(1, 2) {
@@ -650,10 +673,10 @@ func Main(prop string) {
 			}
 			e.famTwoBranches(rng.Intn(3), 1+rng.Intn(3), s, inv, invalidKinds[rng.Intn(len(invalidKinds))], 4, rng.Intn(4)-2)
 		}
-		for i := 0; i < run.Pick(150, 1500); i++ {
+		for i := 0; i < run.Pick(150, 1000); i++ {
 			e.famThreeBranches()
 		}
-		for i := 0; i < run.Pick(300, 4000); i++ {
+		for i := 0; i < run.Pick(300, 2500); i++ {
 			e.famRandom(run.Pick(10, 25))
 		}
 	} else {
@@ -682,10 +705,10 @@ func Main(prop string) {
 		for n := 1; n <= run.Pick(3, 4); n++ {
 			e.famSmall(n, -1)
 		}
-		for i := 0; i < run.Pick(150, 2000); i++ {
+		for i := 0; i < run.Pick(150, 800); i++ {
 			e.famThreeBranches()
 		}
-		for i := 0; i < run.Pick(100, 1500); i++ {
+		for i := 0; i < run.Pick(100, 700); i++ {
 			e.famRandom(run.Pick(10, 20))
 		}
 	}
